@@ -59,4 +59,17 @@ CHECKS = {
         "level_note": "Trusted: the reference model harness/props/model_distrib.go. Floor decisions that are ambiguous at the 10^-9 level follow the implementation (see payAmount) so that truncation noise is not amplified through cycles. Same bounds as C03.",
         "design_ref": "DESIGN.md §5 C04",
     },
+    "C14": {
+        "title": "Failed transfers in the distributor lose nothing and are made up later",
+        "level": "fault_enumeration",
+        "technique": "property-based fault injection (rapid): a generated failure bit per bank call (sweep, payout, burn) through a BankKeeper wrapper, fault-aware reference model after every block, fault-free twin run after a fault-free suffix",
+        "tests": [T("TestC14", 800, 3000, qshards=2)],
+        "rule": "cases = valid configuration (as C04) x inflows during 1-5 fault blocks x a rapid-drawn failure decision (p=1/3) for every bank call the distributor attempts in those blocks (module sweep, account sweep, module payout, account payout, burn), then a fault-free suffix of max(#sub-distributors+3, #real accounts+2) blocks; natural failures (blocked base destination, vesting-locked base source) are present too. "
+                "Non-trivial = injected failures of at least two different kinds were actually hit. Distinct = SHA-256 of (configuration, inflows, fault decisions in call order).",
+        "min_nontrivial_fraction": 0.3,
+        "min_class_fraction": {"hit_burn": 0.05, "hit_pay_module": 0.2, "hit_sweep_module": 0.1, "hit_sweep_account": 0.1, "hit_pay_account": 0.05, "twin_compared": 0.3},
+        "level_text": "Fault enumeration by generated schedules: every bank operation of the distributor can be failed per call through a wrapper implementing the module's BankKeeper interface (the keeper is built with the public NewKeeper on the app's own store; no repo hook). After every block the C03 identity (books == main balance, conservation over all configured accounts and burned coins) and the fault-aware reference model must hold; after the fault-free suffix each account's balance must equal the fault-free twin's within one base unit per key. The level is fault_enumeration because the quantifier is over failure patterns and the harness owns the failure schedule.",
+        "level_note": "Twin comparison preconditions (DESIGN §5 C14): acyclic flow through real accounts, no real account swept by two sub-distributors, the permanently unsweepable account is not also a destination. The per-block identity and model checks run on all cases. Trusted: reference model, x/bank.",
+        "design_ref": "DESIGN.md §5 C14",
+    },
 }
